@@ -359,4 +359,26 @@ def generate(seed, tier):
     else:
         n = r.choice([1, 1, 2, 2, 3, 4])
         invs = [gen_invocation(r, w, tier, j, stratum=seed % 997) for j in range(n)]
-    return {'property': 'C20', 'seed': seed, 'tier': tier, 'world': w, 'invocations': invs}
+    desc = {'property': 'C20', 'seed': seed, 'tier': tier, 'world': w, 'invocations': invs}
+    _extras(desc)
+    return desc
+
+
+def _extras(desc):
+    """World features added after the adversarial rounds, drawn from a generator of their own so
+    that the configurations of earlier rounds keep their meaning seed by seed.
+    * a reduction version in the parameter file that cannot be exported (embedded NUL): the
+      export of RUN2D succeeds and that of RUN1D fails, or the first one fails already -
+      a natural failure *between* the two perturbing mutations;
+    * window_flist.fits whose first extension is an empty image (the table comes second):
+      readable, but nothing the scoring expects is where it should be."""
+    r2 = random.Random((desc['seed'] * 2654435761 + 12) & 0xffffffffffff)
+    for inv in desc['invocations']:
+        u = r2.random()
+        if inv['entry'] == 'template_input' and inv['par']['variant'] == 'valid' and u < 0.06:
+            k = 'run1d' if u < 0.04 else 'run2d'
+            inv['par']['pairs'] = [[a, (str(b) + '\x00x' if a == k else b)] for a, b in inv['par']['pairs']]
+            inv['par']['variant'] = 'nul_in_' + k
+    has_window = any(inv['entry'].startswith('window') for inv in desc['invocations'])
+    if has_window and r2.random() < 0.25 and not desc['world']['photo'].get('flist_damage'):
+        desc['world']['photo']['flist_layout'] = 'image_ext_first'
